@@ -403,23 +403,24 @@ theorem C19_rejects_cp_apr (a : CpAprArgs) (h : ¬ Pre_cpApr a) : validate_cpApr
 theorem C19_accepts_cp_apr (a : CpAprArgs) (h : Pre_cpApr a) : validate_cpApr a = .ok () :=
   (validate_cpApr_ok_iff a).2 h
 
-/-- `tucker_als`: negative `maxiters`, a rank vector of the wrong length, a `dimorder` that is
-not a permutation, a guess list of the wrong length or with a matrix of the wrong size, an
-unknown name. -/
+/-- `tucker_als`: negative `maxiters`, a rank vector of the wrong length, a rank below 1 or above
+the extent of its mode, a `dimorder` that is not a permutation, a guess list of the wrong length
+or with a matrix of the wrong size, an unknown name. -/
 theorem C19_rejects_tucker_als (a : TuckerArgs) (h : ¬ Pre_tucker a) : validate_tucker a = .error .reject :=
   rejects_of_guard (validate_tucker_ok_iff a) h
 
 theorem C19_accepts_tucker_als (a : TuckerArgs) (h : Pre_tucker a) : validate_tucker a = .ok () :=
   (validate_tucker_ok_iff a).2 h
 
-/-- `hosvd`: a rank vector of the wrong length or a `dimorder` that is not a permutation. -/
-theorem C19_rejects_hosvd (N : Nat) (ranks : Option Nat) (dimorder : Option (List Int))
-    (h : ¬ Pre_hosvd N ranks dimorder) : validate_hosvd N ranks dimorder = .error .reject :=
-  rejects_of_guard (validate_hosvd_ok_iff N ranks dimorder) h
+/-- `hosvd`: a rank vector of the wrong length, a rank that is negative or larger than the extent
+of its mode, or a `dimorder` that is not a permutation. -/
+theorem C19_rejects_hosvd (shape : List Nat) (ranks : Option (List Int)) (dimorder : Option (List Int))
+    (h : ¬ Pre_hosvd shape ranks dimorder) : validate_hosvd shape ranks dimorder = .error .reject :=
+  rejects_of_guard (validate_hosvd_ok_iff shape ranks dimorder) h
 
-theorem C19_accepts_hosvd (N : Nat) (ranks : Option Nat) (dimorder : Option (List Int))
-    (h : Pre_hosvd N ranks dimorder) : validate_hosvd N ranks dimorder = .ok () :=
-  (validate_hosvd_ok_iff N ranks dimorder).2 h
+theorem C19_accepts_hosvd (shape : List Nat) (ranks : Option (List Int)) (dimorder : Option (List Int))
+    (h : Pre_hosvd shape ranks dimorder) : validate_hosvd shape ranks dimorder = .ok () :=
+  (validate_hosvd_ok_iff shape ranks dimorder).2 h
 
 /-- `gcp_opt`: a malformed objective, something that is not a solver, sparse data with L-BFGS-B
 or with a mask, a mask with a stochastic solver or of another shape, a guess that does not fit
@@ -456,6 +457,165 @@ example : Pre_toMat 3 (some [1]) none (some .bc) ∧ ¬ Pre_toMat 3 (some [3]) n
 example : Pre_sptenmat ⟨2, [[5, 3]], 1, some [0, 1], some [2], [2, 3, 4]⟩ ∧
     ¬ Pre_sptenmat ⟨2, [[6, 0]], 1, some [0, 1], some [2], [2, 3, 4]⟩ := by decide
 example : Pre_contract [2, 2, 3] 0 1 ∧ ¬ Pre_contract [2, 2, 3] 0 (-3) := by decide
+
+/-! ### the remaining public operations -/
+
+/-- `tensor.mttkrps(U)`: fewer than two modes, a factor list of the wrong length, a factor with
+the wrong number of rows or a column count other than the first factor's. -/
+theorem C19_rejects_mttkrps (shape : List Nat) (U : List MatS) (h : ¬ Pre_mttkrps shape U) :
+    validate_mttkrps shape U = .error .reject := rejects_of_guard (validate_mttkrps_ok_iff shape U) h
+
+theorem C19_accepts_mttkrps (shape : List Nat) (U : List MatS) (h : Pre_mttkrps shape U) :
+    validate_mttkrps shape U = .ok () := (validate_mttkrps_ok_iff shape U).2 h
+
+/-- `tensor.ttsv`: a `skip_dim` that is negative or `≥ N`, an unknown version, a vector whose
+length is not the extent of a multiplied mode (version 1: the `ttv` request), or — for the
+direct computation — modes of different sizes. -/
+theorem C19_rejects_ttsv (a : TtsvArgs) (h : ¬ Pre_ttsv a) : validate_ttsv a = .error .reject :=
+  rejects_of_guard (validate_ttsv_ok_iff a) h
+
+theorem C19_accepts_ttsv (a : TtsvArgs) (h : Pre_ttsv a) : validate_ttsv a = .ok () :=
+  (validate_ttsv_ok_iff a).2 h
+
+/-- `tensor.symmetrize(grps, version)` (both versions): a group with a negative, out-of-range or
+repeated mode, modes of different extent in a group, or a mode in two groups. -/
+theorem C19_rejects_symmetrize (shape : List Nat) (grps : Option (List (List Int))) (old : Bool)
+    (h : ¬ Pre_symmetrize shape grps) : validate_symmetrize shape grps old = .error .reject :=
+  rejects_of_guard (validate_symmetrize_ok_iff shape grps old) h
+
+theorem C19_accepts_symmetrize (shape : List Nat) (grps : Option (List (List Int))) (old : Bool)
+    (h : Pre_symmetrize shape grps) : validate_symmetrize shape grps old = .ok () :=
+  (validate_symmetrize_ok_iff shape grps old).2 h
+
+/-- `tensor.issymmetric(grps, ...)`: a group with a negative, out-of-range or repeated mode. -/
+theorem C19_rejects_issymmetric (shape : List Nat) (grps : Option (List (List Int)))
+    (h : ¬ Pre_issymmetric shape grps) : validate_issymmetric shape grps = .error .reject :=
+  rejects_of_guard (validate_issymmetric_ok_iff shape grps) h
+
+theorem C19_accepts_issymmetric (shape : List Nat) (grps : Option (List (List Int)))
+    (h : Pre_issymmetric shape grps) : validate_issymmetric shape grps = .ok () :=
+  (validate_issymmetric_ok_iff shape grps).2 h
+
+/-- `ktensor.symmetrize()`: modes of different sizes. -/
+theorem C19_rejects_ksymmetrize (shape : List Nat) (h : ¬ Pre_ksymmetrize shape) :
+    validate_ksymmetrize shape = .error .reject := rejects_of_guard (validate_ksymmetrize_ok_iff shape) h
+
+theorem C19_accepts_ksymmetrize (shape : List Nat) (h : Pre_ksymmetrize shape) :
+    validate_ksymmetrize shape = .ok () := (validate_ksymmetrize_ok_iff shape).2 h
+
+/-- `ktensor.fixsigns(other)` and `ktensor.score(other)`: another shape, or more components. -/
+theorem C19_rejects_kmatch (sa sb : List Nat) (ra rb : Nat) (h : ¬ Pre_kmatch sa sb ra rb) :
+    validate_kmatch sa sb ra rb = .error .reject := rejects_of_guard (validate_kmatch_ok_iff sa sb ra rb) h
+
+theorem C19_accepts_kmatch (sa sb : List Nat) (ra rb : Nat) (h : Pre_kmatch sa sb ra rb) :
+    validate_kmatch sa sb ra rb = .ok () := (validate_kmatch_ok_iff sa sb ra rb).2 h
+
+/-- a rejected `fixsigns(other)` leaves the receiver as it was. -/
+theorem C19_receiver_unchanged_fixsigns {σ : Type} (sa sb : List Nat) (ra rb : Nat) (step : σ → σ) (s : σ)
+    (h : ¬ Pre_kmatch sa sb ra rb) : inPlace (validate_kmatch sa sb ra rb) step s = (s, .error .reject) :=
+  inPlace_reject _ step s (C19_rejects_kmatch sa sb ra rb h)
+
+/-- `ktensor.update(modes, data)`: modes not strictly ascending (so repeated), below `-1` or `≥ N`,
+or too little data. -/
+theorem C19_rejects_update (a : UpdateArgs) (h : ¬ Pre_update a) : validate_update a = .error .reject :=
+  rejects_of_guard (validate_update_ok_iff a) h
+
+theorem C19_accepts_update (a : UpdateArgs) (h : Pre_update a) : validate_update a = .ok () :=
+  (validate_update_ok_iff a).2 h
+
+/-- a rejected `update` has not written any factor. -/
+theorem C19_receiver_unchanged_update {σ : Type} (a : UpdateArgs) (step : σ → σ) (s : σ) (h : ¬ Pre_update a) :
+    inPlace (validate_update a) step s = (s, .error .reject) :=
+  inPlace_reject _ step s (C19_rejects_update a h)
+
+/-- `ttensor.reconstruct(samples, modes)`: modes without samples; modes that are negative, out of
+range or repeated; a different number of samples and modes; a row index `≥` the extent or a
+sampling matrix with another number of columns. -/
+theorem C19_rejects_reconstruct (shape : List Nat) (samples : Option (List SampleS)) (modes : Option (List Int))
+    (h : ¬ Pre_reconstruct shape samples modes) : validate_reconstruct shape samples modes = .error .reject :=
+  rejects_of_guard (validate_reconstruct_ok_iff shape samples modes) h
+
+theorem C19_accepts_reconstruct (shape : List Nat) (samples : Option (List SampleS)) (modes : Option (List Int))
+    (h : Pre_reconstruct shape samples modes) : validate_reconstruct shape samples modes = .ok () :=
+  (validate_reconstruct_ok_iff shape samples modes).2 h
+
+/-- `ktensor.from_function`: the handle returns an array of another size than requested. -/
+theorem C19_rejects_kfrom_function (shape : List Nat) (R : Nat) (ret : List MatS) (h : ¬ Pre_kfromFunction shape R ret) :
+    validate_kfromFunction shape R ret = .error .reject := rejects_of_guard (validate_kfromFunction_ok_iff shape R ret) h
+
+theorem C19_accepts_kfrom_function (shape : List Nat) (R : Nat) (ret : List MatS) (h : Pre_kfromFunction shape R ret) :
+    validate_kfromFunction shape R ret = .ok () := (validate_kfromFunction_ok_iff shape R ret).2 h
+
+/-- `sptenmat[rows, cols] = values`: an index outside the matrix or a value count other than the
+number of cells. -/
+theorem C19_rejects_sptenmat_set (a : SpSetArgs) (h : ¬ Pre_sptenmatSet a) : validate_sptenmatSet a = .error .reject :=
+  rejects_of_guard (validate_sptenmatSet_ok_iff a) h
+
+theorem C19_accepts_sptenmat_set (a : SpSetArgs) (h : Pre_sptenmatSet a) : validate_sptenmatSet a = .ok () :=
+  (validate_sptenmatSet_ok_iff a).2 h
+
+/-- a rejected `sptenmat` assignment has stored nothing. -/
+theorem C19_receiver_unchanged_sptenmat_set {σ : Type} (a : SpSetArgs) (step : σ → σ) (s : σ)
+    (h : ¬ Pre_sptenmatSet a) : inPlace (validate_sptenmatSet a) step s = (s, .error .reject) :=
+  inPlace_reject _ step s (C19_rejects_sptenmat_set a h)
+
+/-- `tenmat[i, j]` (read and write): a position outside the matrix. -/
+theorem C19_rejects_tenmat_index (mshape : MatS) (i j : Int) (h : ¬ Pre_tenmatIndex mshape i j) :
+    validate_tenmatIndex mshape i j = .error .reject := rejects_of_guard (validate_tenmatIndex_ok_iff mshape i j) h
+
+theorem C19_accepts_tenmat_index (mshape : MatS) (i j : Int) (h : Pre_tenmatIndex mshape i j) :
+    validate_tenmatIndex mshape i j = .ok () := (validate_tenmatIndex_ok_iff mshape i j).2 h
+
+/-- `nvecs(n, r)` (dense, sparse, Kruskal, Tucker): `n` negative or `≥ N`, `r ≤ 0` or `r` larger
+than the extent of mode `n`. -/
+theorem C19_rejects_nvecs (shape : List Nat) (n r : Int) (h : ¬ Pre_nvecs shape n r) :
+    validate_nvecs shape n r = .error .reject := rejects_of_guard (validate_nvecs_ok_iff shape n r) h
+
+theorem C19_accepts_nvecs (shape : List Nat) (n r : Int) (h : Pre_nvecs shape n r) :
+    validate_nvecs shape n r = .ok () := (validate_nvecs_ok_iff shape n r).2 h
+
+/-- `tenfun` with a function of the stacked operands: an operand of another shape. -/
+theorem C19_rejects_tenfun_unary (shape : List Nat) (others : List (List Nat)) (h : ¬ Pre_tenfunUnary shape others) :
+    validate_tenfunUnary shape others = .error .reject := rejects_of_guard (validate_tenfunUnary_ok_iff shape others) h
+
+theorem C19_accepts_tenfun_unary (shape : List Nat) (others : List (List Nat)) (h : Pre_tenfunUnary shape others) :
+    validate_tenfunUnary shape others = .ok () := (validate_tenfunUnary_ok_iff shape others).2 h
+
+/-- `ktensor.viz`: an option list without one entry per mode; `sptensor.spmatrix`: not two modes. -/
+theorem C19_rejects_viz_spmatrix (N : Nat) (lens shape : List Nat) :
+    (¬ Pre_viz N lens → validate_viz N lens = .error .reject) ∧
+    (¬ Pre_spmatrix shape → validate_spmatrix shape = .error .reject) :=
+  ⟨rejects_of_guard (validate_viz_ok_iff N lens), rejects_of_guard (validate_spmatrix_ok_iff shape)⟩
+
+theorem C19_accepts_viz_spmatrix (N : Nat) (lens shape : List Nat) :
+    (Pre_viz N lens → validate_viz N lens = .ok ()) ∧ (Pre_spmatrix shape → validate_spmatrix shape = .ok ()) :=
+  ⟨(validate_viz_ok_iff N lens).2, (validate_spmatrix_ok_iff shape).2⟩
+
+/-- `sptensor.from_function`: a negative count, more than there are cells, or a handle that
+returns another number of values than it was asked for. -/
+theorem C19_rejects_sp_from_function (shape : List Nat) (nz : Int) (b : Bool) (h : ¬ Pre_spFromFunction shape nz b) :
+    validate_spFromFunction shape nz b = .error .reject := rejects_of_guard (validate_spFromFunction_ok_iff shape nz b) h
+
+theorem C19_accepts_sp_from_function (shape : List Nat) (nz : Int) (b : Bool) (h : Pre_spFromFunction shape nz b) :
+    validate_spFromFunction shape nz b = .ok () := (validate_spFromFunction_ok_iff shape nz b).2 h
+
+/-- `sptenmat.from_array`: a mode split that is not a permutation, or an array (without zero
+entries) larger than the matricization. -/
+theorem C19_rejects_from_array (ashape : MatS) (rdims cdims : Option (List Int)) (tshape : List Nat)
+    (h : ¬ Pre_fromArray ashape rdims cdims tshape) : validate_fromArray ashape rdims cdims tshape = .error .reject :=
+  rejects_of_guard (validate_fromArray_ok_iff ashape rdims cdims tshape) h
+
+theorem C19_accepts_from_array (ashape : MatS) (rdims cdims : Option (List Int)) (tshape : List Nat)
+    (h : Pre_fromArray ashape rdims cdims tshape) : validate_fromArray ashape rdims cdims tshape = .ok () :=
+  (validate_fromArray_ok_iff ashape rdims cdims tshape).2 h
+
+example : Pre_symmetrize [2, 2, 3] (some [[0, 1]]) ∧ ¬ Pre_symmetrize [2, 2, 3] (some [[0, 0]]) ∧
+    ¬ Pre_symmetrize [2, 2, 2] (some [[0, 1], [1, 2]]) ∧ ¬ Pre_symmetrize [2, 2, 3] none := by decide
+example : Pre_ttsv ⟨[3, 3, 3], 3, some 0, .default⟩ ∧ ¬ Pre_ttsv ⟨[4, 2, 8], 4, none, .default⟩ ∧
+    ¬ Pre_ttsv ⟨[1, 1, 1], 1, some 3, .v2⟩ := by decide
+example : Pre_update ⟨[2, 3, 4], 2, [-1, 0, 2], 14⟩ ∧ ¬ Pre_update ⟨[2, 3, 4], 2, [0, 0], 8⟩ ∧
+    ¬ Pre_update ⟨[2, 3, 4], 2, [-2], 6⟩ := by decide
+example : Pre_mttkrps [2, 3, 4] [(2, 2), (3, 2), (4, 2)] ∧ ¬ Pre_mttkrps [2, 3, 4] [(2, 2), (3, 2), (2, 2)] := by decide
 
 /-! ### the pinned commit answered some ill-formed requests (explicit copies of the old guards) -/
 
